@@ -94,6 +94,13 @@ Proof.
 Qed.
 Print Assumptions C13_status_lag_orig_refuted.
 
+(* the plain shut_down() (Exited in the queue) and shut_down_with_status(k) are the same kind of request: with 18
+   of them queued before the poll, the first one wins whichever kind it is *)
+Theorem C13_status_lag_plain_and_explicit :
+  rrun rinit plain_then_explicit = [(0%N, Exited)] /\ rrun rinit explicit_then_plain = [(0%N, Status 5)].
+Proof. exact lagged_plain_first. Qed.
+Print Assumptions C13_status_lag_plain_and_explicit.
+
 (* with a timeout d and prompt polling: the first application request if made strictly before d, else TimedOut
    at d -- exactly once *)
 Theorem C13_status_timeout : forall d reqs,
